@@ -44,6 +44,20 @@ func (fr *frame) frameCheck(st *State, arrName string, ref Term, reach string, p
 	o.Src = "write to " + arrName + " must be covered by the modifies clause"
 }
 
+// frameGoal: the condition under which a write to arrName[ref] is permitted ("" = always).
+func (fr *frame) frameGoal(arrName string, ref Term) string {
+	fc := fr.fc
+	if fc.c == nil || fc.modEvery || fc.modAll[arrName] {
+		return ""
+	}
+	al := fc.heapGet(fr.old, "Alloc", arr(SInt, SBool))
+	alts := []string{not(sel(al.S, ref.S))}
+	for _, m := range fc.modset[arrName] {
+		alts = append(alts, eq(ref.S, m.S))
+	}
+	return or(alts...)
+}
+
 func (fr *frame) structFields(t types.Type) (*types.Struct, bool) {
 	s, ok := t.Underlying().(*types.Struct)
 	return s, ok
@@ -138,6 +152,19 @@ func (fr *frame) exec(in ssa.Instruction, st *State, reach string) {
 				fc.heapSet(st, n, Term{store(a.S, r.S, e.zero(si.sorts[k], f.Type()).S), a.Sort})
 			}
 			_ = sn
+			// declared ghost fields start at their zero value
+			for _, g := range e.specs.Ghost {
+				if g.Struct != typeKey(elemT) {
+					continue
+				}
+				_, gs, err := e.resolveType(g.Type, "")
+				if err != nil {
+					continue
+				}
+				n := "G$" + sanitize(shortType(elemT)) + "$" + g.Name
+				a := fc.heapGet(st, n, arr(SInt, gs))
+				fc.heapSet(st, n, Term{store(a.S, r.S, e.zero(gs, nil).S), a.Sort})
+			}
 		} else {
 			fr.storeRefNoFrame(st, r, elemT, e.zero(e.sortOf(elemT), elemT))
 		}
@@ -267,6 +294,9 @@ func (fr *frame) exec(in ssa.Instruction, st *State, reach string) {
 		es := e.sortOf(st.Elem())
 		fr.vals[i] = fc.define("mkslice", Term{fmt.Sprintf("(mkslc ((as const %s) %s) 0 %s)", arr(SInt, es), e.zero(es, st.Elem()).S, ln.S), slc(es)})
 	case *ssa.MakeChan:
+		if sz, ok := fr.val(i.Size).(Term); ok {
+			fr.safety("makechan", fmt.Sprintf("(<= 0 %s)", sz.S), reach, i.Pos(), "make(chan): negative buffer size")
+		}
 		r := fc.newRef(st, "chan")
 		cl := fc.heapGet(st, "CL", arr(SInt, SInt))
 		fc.heapSet(st, "CL", Term{store(cl.S, r.S, "0"), cl.Sort})
@@ -360,6 +390,35 @@ func (fr *frame) exec(in ssa.Instruction, st *State, reach string) {
 	case *ssa.Next:
 		fr.execNext(i, st, reach)
 	case *ssa.Go:
+		// producer hand-off: `go f(args)` where f is under contract. The spawned function is verified
+		// sequentially on its own; here only its precondition is checked. Its effects are not visible
+		// to the spawning function (which must not touch the handed-over state afterwards: assumed).
+		if callee := i.Call.StaticCallee(); callee != nil && !i.Call.IsInvoke() {
+			if ct := fc.e.specs.Funcs[fnKey(callee)]; ct != nil && fc.c != nil && fc.c.Opts["go-handoff"] != "" {
+				var args []Val
+				for _, a := range i.Call.Args {
+					args = append(args, fr.val(a))
+				}
+				env := &Env{fc: fc, pkg: ct.Pkg, vars: map[string]CVal{}, bound: map[string]CVal{}, st: st, old: st}
+				for k, p := range callee.Params {
+					if t, ok := args[k].(Term); ok {
+						env.vars[p.Name()] = CVal{t, p.Type()}
+					}
+				}
+				for idx, cl := range ct.Requires {
+					t, err := env.evalBool(cl.Expr)
+					if err != nil {
+						fc.unsupported("go %s: %v", callee.Name(), err)
+						continue
+					}
+					o := fc.oblig("pre", "go."+sanitizeName(shortKey(ct.Key))+".pre."+strconv.Itoa(idx), t.S, reach, i.Pos(), nil)
+					o.Src = cl.Src
+				}
+				fc.assumes = append(fc.assumes, "goroutine hand-off in "+fc.short+": "+shortKey(ct.Key)+" is verified as a sequential function; the spawning function does not access the handed-over object afterwards (not checked); scheduling and blocking are not modelled")
+				fc.callees[ct.Key] = true
+				return
+			}
+		}
 		fc.unsupported("go statement in %s (goroutines are outside the proof subset)", fr.fn.Name())
 	case *ssa.Select:
 		fc.unsupported("select statement in %s", fr.fn.Name())
